@@ -1,7 +1,7 @@
 /-
 C10 line-protocol driver (see harness/internal/c10/c10.go for the field list):
 
-  req <srvT> <cih> <strict> <hT> <omit> <remote> <tls> <host> <hdrs> <tbl> <fails> <hops>
+  req <srvT> <cih> <strict> <hT> <omit> <remote> <tls> <host> <hdrs> <tbl> <fails> <hops> <mode>
 
 `tbl` carries net/netip's answers for this case (every '%'-free substring of the remote
 address / a header value that `ParseAddr` accepts, its `String()`, and `Prefix.Contains`
@@ -140,32 +140,38 @@ def handleCF : List String → String
 
 def handle : List String → String
   | "cf" :: rest => handleCF rest
-  | ["req", srvT, cih, strict, hT, omitF, remote, tls, host, hdrs, tbl, failsF, hopsF] =>
-    let srv : Option (Option Nat) := if srvT == "nil" then some none else (parseRanges srvT).map some
+  | ["req", srvT, cih, strict, hT, omitF, remote, tls, host, hdrs, tbl, failsF, hopsF, modeF] =>
+    -- `dyn:` = the same ranges answered by a request-scoped IPRangeSource (not among the probe's matcher ranges)
+    let dyn := srvT.startsWith "dyn:"
+    let srvT := if dyn then (srvT.drop 4).toString else srvT
+    let srv : Option (Option Nat) := if srvT == "nil" then (if dyn then none else some none) else (parseRanges srvT).map some
     let ci : Option (Option (List Bytes)) := if cih == "nil" then some none else (parseHexList cih).map some
     let st : Option Nat := parseSmall strict
     let om : Option (Bool × Bool × Bool) :=
       match omitF.toList.map (fun c => parseBool c.toString) with
       | [some a, some b, some c] => some (a, b, c)
       | _ => none
-    -- tls: 0 plain | 1 r.TLS set | 2 r.TLS recovered by Server.ServeHTTP from the connection in the context
-    let tlsB : Option Bool := if tls == "2" then some true else parseBool tls
+    -- tls: 0 plain | 1 r.TLS set | 3 r.TLS set, handshake incomplete | 2 r.TLS recovered by Server.ServeHTTP from the connection in the context
+    let early := tls == "3"      -- 3 = TLS, handshake not complete (0-RTT)
+    let tlsB : Option Bool := if tls == "2" || tls == "3" then some true else parseBool tls
     match srv, ci, st, parseRanges hT, om, Hex.decode remote, tlsB, Hex.decode host, parseHdrs hdrs with
     | some srv, some ci, some st, some nh, some (o1, o2, o3), some remote, some tls, some host, some wire =>
       let ns := match srv with | some n => n | none => 0
-      match parseTable ns nh tbl, parseSmall failsF, parseOps hopsF with
-      | some table, some fails, some ops =>
+      -- mode: 0 GET over HTTP/1.1 | 1 websocket over HTTP/2; ServeHTTP's rewriting of the prepared request
+      -- (method, Upgrade/Connection, :protocol, Sec-WebSocket-Key) does not touch a modelled field
+      match parseTable ns nh tbl, parseSmall failsF, parseOps hopsF, (if modeF == "0" || modeF == "1" then some () else none) with
+      | some table, some fails, some ops, some () =>
         let cfg : Cfg PIdx :=
           { srvTrusted := srv.map (idxList 0), clientIPHeaders := ci, strict := st,
             handlerTrusted := idxList 1 nh, omitXFF := o1, omitXFP := o2, omitXFH := o3 }
         -- the probe's matchers: server ranges, handler ranges, then the fixed ranges
         let mranges : List (MRange PIdx) :=
-          ((idxList 0 ns ++ idxList 1 nh).map (fun p => ⟨p, []⟩)) ++
+          ((idxList 0 (if dyn then 0 else ns) ++ idxList 1 nh).map (fun p => ⟨p, []⟩)) ++
           (fixedZones.zipIdx.map (fun zi => ⟨⟨2, zi.2⟩, zi.1⟩))
-        showOut (serve (tableNet table) cfg ⟨remote, tls, host⟩ wire)
-          (serveConsumers (tableNet table) cfg mranges ⟨remote, tls, host⟩ wire)
-          (serveAttempts (tableNet table) cfg ⟨remote, tls, host⟩ wire ops fails)
-      | _, _, _ => "bad-op"
+        showOut (serve (tableNet table) cfg ⟨remote, tls, host, early⟩ wire)
+          (serveConsumers (tableNet table) cfg mranges ⟨remote, tls, host, early⟩ wire)
+          (serveAttempts (tableNet table) cfg ⟨remote, tls, host, early⟩ wire ops fails)
+      | _, _, _, _ => "bad-op"
     | _, _, _, _, _, _, _, _, _ => "bad-op"
   | _ => "bad-op"
 
